@@ -102,8 +102,9 @@ class Runner:
                     if k.family == "id3":
                         st.v1 = self.rng.choice([0, 1, 2])
                         kw["v1"] = st.v1
-                if not k.is_tagclass and o.tags is None and k.style != "ape":
-                    pass
+                if k.name == "FLAC" and self.cur[:3] == b"ID3" and self.rng.random() < 0.5:
+                    kw["deleteid3"] = True
+                    st.v1 = "deleteid3"
                 st.mem = KM.canon_mem(k, o)
                 st.exp_indep = KM.expected_indep(k, o, st.v2)
                 b.seek(0)
@@ -158,9 +159,12 @@ ALLOWED_NEW = {
 }
 
 
-def foreign_preserved(kind, wb, wa):
+def foreign_preserved(kind, wb, wa, deleteid3=False):
     """C02: every foreign element byte-identical and in the same relative order (None = ok, else message)"""
     fb, fa = wb["foreign"], wa["foreign"]
+    if deleteid3:
+        # the call asked for the removal of the ID3v2 prefix (and of a trailing ID3v1 tag)
+        fb = [(l, (b"" if l == "id3-prefix" else (d[:-128] if l == "audio" and len(d) >= 128 and d[-128:-125] == b"TAG" else d))) for l, d in fb]
     if fb == fa:
         return None
     allowed = ALLOWED_NEW.get(kind.family)
